@@ -199,10 +199,10 @@ class Fx:
 
     # -- type arguments --------------------------------------------------
     def term(self, c):
-        fn = self.F.fns.get(c[4][0])
+        fn = self.F.fns.get(c[4][-2])
         if fn is None:
             return {}
-        return fn.blocks[c[4][1]]["term"]
+        return fn.blocks[c[4][-1]]["term"]
 
     def targ(self, c, i, binding):
         t = self.term(c).get("targs") or []
